@@ -93,9 +93,9 @@ var gcPreamble = []Op{
 	{K: opNext, N: 1}, {K: opGC, N: 0},
 }
 
-var profC08 = Profile{Preamble: gcPreamble, W: map[int]int{opBegin: 1, opInsert: 6, opDelete: 7, opDeleteAll: 1, opCommit: 6, opAbort: 1, opChanges: 3, opNext: 6, opCloseIter: 2, opGC: 8}, GC: 100, FewKeys: true}
+var profC08 = Profile{Preamble: gcPreamble, W: map[int]int{opBegin: 1, opInsert: 6, opModify: 1, opCAS: 2, opCAD: 2, opDelete: 7, opDeleteAll: 1, opCommit: 6, opAbort: 1, opChanges: 3, opNext: 6, opCloseIter: 2, opGC: 8}, GC: 100, FewKeys: true}
 
-const ruleC08 = "histories over few keys (delete / re-insert / re-delete) with 0-4 change iterators at arbitrary progress, Close, virtual-time advances, explicit collector triggers and a gate that parks the collector between its lock-free scan and its write transaction while further operations run; the graveyard worker runs inside a synctest bubble. Checked: the number of retained deletions is never below the deletions not yet handed to every open iterator and never above the deletions made while an iterator was registered, lagging iterators still converge (C07 oracle), nothing is retained without iterators, and after all iterators caught up and 6 collection intervals passed the retained count is 0. Non-trivial = a collector round was released while iterators were open and deliveries happened; distinct by case encoding."
+const ruleC08 = "histories over few keys (delete / re-insert / re-delete, also through Modify and rejected or successful compare-and-* operations) with 0-4 change iterators at arbitrary progress, Close, virtual-time advances, explicit collector triggers and a gate that parks the collector between its lock-free scan and its write transaction while further operations run; the graveyard worker runs inside a synctest bubble. Checked: the number of retained deletions is never below the deletions not yet handed to every open iterator and never above the deletions made while an iterator was registered (checked after every commit, abort and collector operation), lagging iterators still converge (C07 oracle), nothing is retained without iterators, and after all iterators caught up and 6 collection intervals passed the retained count is 0. Non-trivial = a collector round was released while iterators were open and deliveries happened; distinct by case encoding."
 
 func TestC08Graveyard(t *testing.T) {
 	dbTest(t, "C08", "TestC08Graveyard", ruleC08, profC08, Options{})
